@@ -27,9 +27,11 @@ def main():
         assert r.returncode == 0, r.stderr
     sh('git checkout -q --detach ' + sh('git -C /repo rev-parse HEAD').stdout.strip(), cwd=WT)
     results = []
-    for d in sorted(glob.glob('/tmp/seed_C*/out/*/')):
-        prop = re.search(r'seed_(C\d+)', d).group(1)
-        n = os.path.basename(d.rstrip('/'))
+    rnd = int(os.environ.get('SEED_ROUND', '1'))
+    pattern = '/tmp/seed_C*/out/*/' if rnd == 1 else f'/tmp/seed{rnd}_C*/out/*/'
+    for d in sorted(glob.glob(pattern)):
+        prop = re.search(r'seed\d*_(C\d+)', d).group(1)
+        n = int(os.path.basename(d.rstrip('/'))) + 2 * (rnd - 1)
         sid = f'{prop}_{n}'
         if only and sid not in only and prop not in only:
             continue
@@ -67,7 +69,7 @@ def main():
             meta = {
                 'id': sid,
                 'property': prop,
-                'source': 'independent sub-agent given only the property text and a scratch worktree',
+                'source': 'independent sub-agent given only the property text and a scratch worktree' + ('' if rnd == 1 else f' (round {rnd}: also told which two mechanisms round 1 had already produced, to avoid repeats)'),
                 'needs_to_manifest': 'see notes.md',
                 'confirmed_by': {
                     'scratch_worktree': WT,
